@@ -254,6 +254,14 @@ def inspect_frame(frame: FrameType) -> FrameDetails:
             "stack before we get preempted."
         )
 
+    if frame_owner == FRAME_OWNED_BY_FRAME_OBJECT:
+        # This frame has finished executing (it returned or raised, and only
+        # survives because someone holds a reference to the frame object).
+        # Its lasti still names the last instruction it ran, but no exception
+        # handler is active anymore and we didn't read any of the stack, so
+        # don't report blocks that refer to stack slots we don't have.
+        return details
+
     # Figure out the active context managers and finally blocks, by
     # using the exception table to repeatedly simulate raising an exception
     # from the location of the previous handler.
